@@ -262,12 +262,61 @@ def lib_compress(work, src, cfg_tok, hash_len, compression, level, buffered, md,
     return read_file(out), ""
 
 
+def equal_size_chunks(W, rng, want=3, tries=400):
+    """Chunks whose brotli output (bita's own encoder, level 6 and 11) is exactly as long as the chunk:
+    the corner where the writers' stored-bytes rule and the reader's raw rule must agree."""
+    found = []
+    for level in (6, 11):
+        cands = []
+        for _ in range(tries):
+            k = rng.randrange(30, 90)
+            m = rng.randrange(10, 45)
+            cands.append(rng.randbytes(k) + bytes([rng.choice([0, 0, 255, 32])]) * m)
+        tab = brotli_table(W, cands, level)
+        for c in cands:
+            if len(tab[c]) == len(c):
+                found.append((level, c))
+    rng.shuffle(found)
+    return found[:want]
+
+
 def c01_roundtrip(seed, tier):
     """compress (CLI and library) then clone (CLI): output == source; archive bytes vs the model."""
     rng = random.Random(seed * 1000003 + 1)
     R = Result()
     W = Work("c01")
     try:
+        # the equal-size corner of the compression rule, and a rolling window larger than 11771 bytes
+        corner = equal_size_chunks(W, rng, want=4 if tier == "thorough" else 2)
+        R.stat("equal_size_corner_chunks_found", len(corner))
+        special = []
+        for level, c in corner:
+            src = rng.randbytes(len(c)) + c + rng.randbytes(len(c) * 2) + c
+            special.append((src, ["--fixed-size", str(len(c))], "F:%d" % len(c), "brotli", level))
+        big = rng.randbytes(70000) + bytes(30000) + rng.randbytes(50000)
+        special.append((big, ["--hash-chunking", "RollSum", "--avg-chunk-size", "32KiB", "--min-chunk-size", "0",
+                              "--max-chunk-size", "64KiB", "--rolling-window-size", "16KiB"], "R:14:0:65536:16384", "none", None))
+        special.append((big, ["--hash-chunking", "BuzHash", "--avg-chunk-size", "32KiB", "--min-chunk-size", "20000",
+                              "--max-chunk-size", "64KiB", "--rolling-window-size", "12000B"], "B:14:20000:65536:12000", "brotli", 4))
+        for src, cfg_args, cfg_tok, compression, level in special:
+            for writer in ("cli", "lib"):
+                desc = "%s-compress special %s %s/%s src=%s" % (writer, cfg_tok, compression, level, digest(src))
+                if writer == "cli":
+                    cls, arch, se, apath = compress_cli(W, src, cfg_args, 16, compression, level, 4)
+                else:
+                    arch, err = lib_compress(W, src, cfg_tok, 16, compression, level, 4, [], 0)
+                    cls = "ok" if arch is not None else "err"
+                    apath = W.write(arch or b"", ".cba")
+                R.stat("special_cases")
+                if cls != "ok":
+                    R.fail("compress-%s" % cls, desc)
+                    continue
+                outp = W.fresh(".out")
+                c2, rc, so, se2 = clone_cli(W, apath, outp)
+                if c2 != "ok":
+                    R.fail("clone-of-own-archive-%s" % c2, desc + " :: " + se2.decode(errors="replace")[-200:].replace("\n", " | "))
+                elif read_file(outp) != src:
+                    R.fail("roundtrip-output-differs-from-source", desc)
         n = 400 if tier == "thorough" else 60
         for i in range(n):
             src = gen_source(rng, 20000 if i % 7 == 0 else 3000)
@@ -945,7 +994,7 @@ def c05_crash(seed, tier):
             arch, apath, cfg_tok, hl = make_archive(W, rng, src, compression=compression)
             in_place = rng.random() < 0.6
             prior0 = (edit_source(rng, src) if rng.random() < 0.8 else rng.randbytes(900)) if in_place else None
-            seed_paths = [W.write(edit_source(rng, src), ".seed")] if rng.random() < 0.4 else []
+            seed_paths = [W.write(edit_source(rng, src), ".seed")] if (i % 2 == 0 or rng.random() < 0.3) else []
 
             def fresh_out():
                 p = W.fresh(".out")
@@ -999,9 +1048,12 @@ def c05_crash(seed, tier):
                     elif final != src:
                         R.fail("re-run-after-interruption-wrong-output", req)
                     os.unlink(outp)
-            # write failures: the k-th write fails (ENOSPC) or is torn: never a success report
-            for mode in ("fail", "tear"):
-                for k in sorted(set([0, len(writes) - 1, len(writes) // 2] + ([len(writes) - 2] if len(writes) > 1 else []))):
+            # write failures: the k-th write fails (ENOSPC; permanently, or only once) or is torn: never a success report
+            for mode in ("fail", "tear", "fail-once"):
+                idxs = set([0, len(writes) - 1, len(writes) // 2] + ([len(writes) - 2] if len(writes) > 1 else []))
+                if mode == "fail-once":
+                    idxs |= set(range(len(writes))) if (tier == "thorough" or len(writes) <= 10) else set(rng.sample(range(len(writes)), 10))
+                for k in sorted(idxs):
                     if k < 0 or (mode == "tear" and writes[k][2] < 2):
                         continue        # a one-byte write cannot be torn
                     outp = fresh_out()
@@ -1102,6 +1154,18 @@ def c04_corruption(seed, tier):
                 os.unlink(mp)
                 if os.path.exists(outp):
                     os.unlink(outp)
+            # --verify-header: anything but the complete genuine checksum must be refused, output not created
+            hc = a["header_checksum"].hex()
+            for pin in ("", hc[:2], hc[:16], hc[:126], "%02x" % (int(hc[:2], 16) ^ 1) + hc[2:]):
+                # (an over-long value whose first 64 bytes are the checksum is truncated to 64 bytes by the option
+                #  parser - HashSum::MAX_LEN - and accepted; that is the parser's reading of the value, not a prefix match)
+                outp = W.fresh(".out")
+                cls, rc, so, se = clone_cli(W, apath, outp, pin=pin)
+                R.stat("pin_rows")
+                if cls == "ok" or os.path.exists(outp):
+                    R.fail("expected-header-checksum-differs-but-clone-proceeded", "cli-clone --verify-header %r (genuine %s...)" % (pin[:20], hc[:16]))
+                elif cls != "err":
+                    R.fail("pin-mismatch-%s" % cls, "cli-clone --verify-header %r" % pin[:20])
             # server misbehaviour
             for act in ("wrong", "errorpage", ("short", 10), ("extra", 25), "empty", ("status", 404), ("cut", 7)):
                 srv = httpd.Server(arch, script=["full", "full"], default=act)
@@ -1255,8 +1319,16 @@ def c11_conformance(seed, tier):
                 md[rng.choice(["", "a", "key%d" % j, "ключ", "k k"])] = rng.choice(["", "v", "binÿ", "x" * 300])
             writer = "cli" if i % 3 else "lib"
             if writer == "cli":
+                outp = W.fresh(".cba")
+                if i % 2 == 0:
+                    # a stale temp file, longer than anything this run stores (left by an interrupted compress)
+                    with open(os.path.splitext(outp)[0] + "..tmp", "wb") as f:
+                        f.write(rng.randbytes(len(src) + 5000))
+                    R.stat("with_stale_temp_file")
                 cls, arch, se, apath = compress_cli(W, src, cfg_args, hash_len, compression, level, rng.choice([1, 3, 16]), list(md.items()),
-                                                    via_stdin=rng.random() < 0.3)
+                                                    via_stdin=rng.random() < 0.3, out=outp)
+                if os.path.exists(os.path.splitext(outp)[0] + "..tmp"):
+                    R.fail("temp-file-left-behind", "cli-compress (stale temp scenario) src=%s" % digest(src))
             else:
                 arch, err = lib_compress(W, src, cfg_tok, hash_len, compression, level, rng.choice([1, 3, 16]), list(md.items()), rng.choice([0, 1, 100]))
                 cls = "ok" if arch is not None else "err"
@@ -1349,6 +1421,13 @@ def c15_cli(seed, tier):
                 p["rolling_hash_window_size"] = 2 ** 20; p["max_chunk_size"] = 2 ** 21; p["min_chunk_size"] = 0; name = "big-window"
             elif mut == 20:
                 p["chunking_algorithm"] = 1; p["rolling_hash_window_size"] = 3000; p["max_chunk_size"] = 100; p["min_chunk_size"] = 0; name = "rollsum-window-gt-max"
+            if i == 3:
+                # window * 31 >= 2^32: RollSum::add's product overflows on the very first byte
+                p["chunking_algorithm"] = 1; p["rolling_hash_window_size"] = 140000000; p["max_chunk_size"] = 2 ** 28
+                p["min_chunk_size"] = 0; p["chunk_filter_bits"] = 5; name = "huge-rollsum-window"; mut = 99
+            elif i == 4:
+                p["chunking_algorithm"] = 1; p["rolling_hash_window_size"] = 20000; p["max_chunk_size"] = 2 ** 20
+                p["min_chunk_size"] = 0; p["chunk_filter_bits"] = 5; name = "rollsum-window-20000"; mut = 99
             dbytes = pyfmt.encode_dictionary(d)
             declared = None
             if mut == 21:
@@ -1394,6 +1473,19 @@ def c15_cli(seed, tier):
                 R.fail("server-behaviour-%s" % cls, "bita clone with server script %r :: %s" % (script, se.decode(errors="replace")[-160:].replace("\n", "|")))
             elif cls == "ok" and read_file(outp) != base_src:
                 R.fail("server-behaviour-wrong-output", "script %r" % (script,))
+        # a server that keeps sending: the client must not consume (buffer) data without bound
+        for script in ([("flood", 96 << 20)], ["full", ("flood", 96 << 20)], ["full", "full", ("flood", 96 << 20)]):
+            srv = httpd.Server(arch, script=list(script))
+            outp = W.fresh(".out")
+            cls, rc, so, se = clone_cli(W, srv.url(), outp, timeout=120)
+            time.sleep(0.2)
+            srv.close()
+            R.stat("flood_scripts")
+            for wanted, sent in srv.flood_sent:
+                if sent > wanted + (16 << 20):
+                    R.fail("client-buffered-unbounded-server-data", "bita clone with server script %r: asked for %d bytes, took %d" % (script, wanted, sent))
+            if cls not in ("ok", "err"):
+                R.fail("server-behaviour-%s" % cls, "bita clone with server script %r" % (script,))
     finally:
         W.close()
     return R.as_dict()
